@@ -4,7 +4,10 @@ use emmylua_code_analysis::{DiagnosticCode, FileId, load_configs_raw};
 use lsp_types::{Command, Range};
 use serde::{Deserialize, Serialize};
 use serde_json::Value;
+#[cfg(not(feature = "verif-hooks"))]
 use tokio::sync::RwLock;
+#[cfg(feature = "verif-hooks")]
+use crate::verif::RwLock;
 
 use crate::context::{ServerContextSnapshot, WorkspaceManager};
 
